@@ -135,83 +135,49 @@ def is_raise_guard(s):
 
 
 def run_prologue(stmts, env, tracked):
-    """-> 'accept' | 'reject'; raises Unknown."""
+    """-> 'accept' | 'reject'; raises Unknown.  The statements are run by
+    the small-model interpreter (ddverif/interp.py); statements that have
+    no bearing on the arguments (logging, a collection) are skipped."""
+    from .. import interp
+    m = interp.Machine(env)
+    live = set(tracked)
+
+    def relevant(s):
+        names = {x.id for x in ast.walk(s) if isinstance(x, ast.Name)}
+        return bool(names & live)
     for s in stmts:
-        if is_raise_guard(s):
-            if ev(s.test, env):
-                return 'reject'
-            # the else-arm (elif chain of guards)
-            if s.orelse:
-                r = run_prologue(s.orelse, env, tracked)
-                if r == 'reject':
-                    return r
+        if isinstance(s, ast.Expr):
             continue
-        if isinstance(s, ast.If):
-            try:
-                t = ev(s.test, env)
-            except Unknown:
-                if assigned_names(s) & tracked or any(
-                        isinstance(x, ast.Raise) for x in ast.walk(s)):
-                    raise
-                continue
-            r = run_prologue(s.body if t else s.orelse, env, tracked)
-            if r == 'reject':
-                return r
-            continue
-        if isinstance(s, ast.Assign) and len(s.targets) == 1:
-            t = s.targets[0]
-            names = assigned_names(s)
-            if not names & tracked:
-                try:
-                    if isinstance(t, ast.Name):
-                        env[t.id] = ev(s.value, env)
-                except Unknown:
-                    env.pop(t.id, None) if isinstance(t, ast.Name) else None
-                continue
-            v = ev(s.value, env)
-            if isinstance(t, ast.Name):
-                env[t.id] = v
-            elif isinstance(t, ast.Tuple) and isinstance(
-                    v, tuple) and len(v) == len(t.elts) and all(
-                        isinstance(x, ast.Name) for x in t.elts):
-                for x, val in zip(t.elts, v):
-                    env[x.id] = val
+        if isinstance(s, (ast.Assign, ast.AnnAssign, ast.AugAssign)):
+            if relevant(s) or any(
+                    isinstance(x, ast.Name) and x.id in live
+                    for x in ast.walk(s)):
+                live |= assigned_names(s)
             else:
-                raise Unknown(au.src(s))
+                # a local that does not depend on the arguments: keep it
+                # if it can be evaluated, forget it otherwise
+                try:
+                    m.stmt(s)
+                    live |= assigned_names(s)
+                except (interp.Unknown, interp.Raised):
+                    for nm in assigned_names(s):
+                        m.env.pop(nm, None)
+                continue
+        elif not relevant(s) and not any(
+                isinstance(x, ast.Raise) for x in ast.walk(s)):
             continue
-        if isinstance(s, ast.Match):
-            # `match x: case int(): pass; case _: raise` - the model
-            # holds integers only
-            subj = s.subject
-            ok = isinstance(subj, ast.Name) and subj.id in env and all(
-                isinstance(c.pattern, (ast.MatchClass, ast.MatchAs))
-                for c in s.cases)
-            if not ok:
-                raise Unknown('match')
-            for c in s.cases:
-                p = c.pattern
-                if isinstance(p, ast.MatchClass) and au.src(
-                        p.cls) == 'int' and not p.patterns:
-                    r = run_prologue(c.body, env, tracked)
-                    if r == 'reject':
-                        return r
-                    break
-                if isinstance(p, ast.MatchAs) and p.pattern is None:
-                    r = run_prologue(c.body, env, tracked)
-                    if r == 'reject':
-                        return r
-                    break
-                raise Unknown('match')
-            continue
-        if isinstance(s, ast.Raise):
-            if au.raises_assertion(s):
+        try:
+            m.stmt(s)
+        except interp.Raised as r:
+            if r.name == 'AssertionError':
                 raise Unknown('assertion')
             return 'reject'
-        if isinstance(s, ast.Pass):
-            continue
-        if assigned_names(s) & tracked:
-            raise Unknown(au.src(s)[:40])
-        # logging, garbage collection, docstrings: no effect on the model
+        except interp.Returned:
+            return 'accept'
+        except interp.Unknown as e:
+            if not relevant(s):
+                continue
+            raise Unknown(str(e))
     return 'accept'
 
 
